@@ -17,9 +17,11 @@ pub fn encode_ty(ty: &tast::Ty) -> String {
         tast::Ty::TString => "string".to_string(),
         tast::Ty::TVar(_v) => "Var".to_string(),
         tast::Ty::TParam { name } => format!("TParam_{}", name),
+        // The arity is part of the name: without it `((a, b), c, d)` and `((a, b, c), d)` would
+        // both be `Tuple_Tuple_a_b_c_d` and share vtable, wrapper and helper names.
         tast::Ty::TTuple { typs } => {
             let inner = typs.iter().map(encode_ty).collect::<Vec<_>>().join("_");
-            format!("Tuple_{}", inner)
+            format!("Tuple{}_{}", typs.len(), inner)
         }
         tast::Ty::TEnum { name } | tast::Ty::TStruct { name } => name.clone(),
         tast::Ty::TDyn { trait_name } => format!("Dyn_{}", trait_name),
